@@ -634,11 +634,18 @@ func exclDoc(x *explore.X, slots int) *gen.Doc {
 	return d
 }
 
-func topoParams(c *core.Ctx) (int, []int) {
-	if c.Quick() {
-		return topoQuickMenu, []int{2, 1}
+type topoConfig struct {
+	menu  int
+	sizes []int
+}
+
+// topoConfigs: quick = 2 fragments over the quick menu; thorough = 2 fragments over the
+// whole menu and 3 fragments over the quick menu plus the spread of the third.
+func topoConfigs(quick bool) []topoConfig {
+	if quick {
+		return []topoConfig{{topoQuickMenu, []int{2, 1}}}
 	}
-	return len(topoMenu), []int{2, 1, 1}
+	return []topoConfig{{len(topoMenu), []int{2, 1}}, {topoQuickMenu + 1, []int{2, 1, 1}}}
 }
 
 func run(c *core.Ctx) {
@@ -657,8 +664,7 @@ func run(c *core.Ctx) {
 	c.R.Bounds["injected_edits"] = nmut
 	c.R.Bounds["literal_menu"] = len(literalMenu)
 	c.R.Bounds["variable_type_menu"] = len(varTypeMenu)
-	c.R.Bounds["topology_fragments"] = c.Pick(2, 3)
-	c.R.Bounds["topology_menu"] = c.Pick(topoQuickMenu, len(topoMenu))
+	c.R.Bounds["topology_configurations(menu,fragment_body_sizes)"] = fmt.Sprint(topoConfigs(c.Quick()))
 	f.W.Alphabet = nil
 
 	// (a) generator documents with injected edits, for every kind of operation
@@ -748,21 +754,6 @@ func run(c *core.Ctx) {
 			}
 		}
 	}
-	// (c) fragment topologies
-	{
-		menu, sizes := topoParams(c)
-		e := c.Explorer(0)
-		e.ShardLevel = 2
-		e.Run(func(x *explore.X, owned bool) uint64 {
-			d := topoDoc(x, menu, sizes)
-			text := d.Render()
-			if !owned {
-				return report.H(text)
-			}
-			return v.account(x, "topologies", text, d, false, map[string]interface{}{"space": "topologies", "choices": x.Trace(), "quick": c.Quick()})
-		})
-		c.Absorb(e)
-	}
 	// (d) mutual exclusivity orders
 	{
 		slots := c.Pick(4, 5)
@@ -776,6 +767,21 @@ func run(c *core.Ctx) {
 				return report.H(text)
 			}
 			return v.account(x, "exclusivity", text, d, false, map[string]interface{}{"space": "exclusivity", "choices": x.Trace(), "slots": slots})
+		})
+		c.Absorb(e)
+	}
+	// (c) fragment topologies
+	for ti, tc := range topoConfigs(c.Quick()) {
+		ti, tc := ti, tc
+		e := c.Explorer(0)
+		e.ShardLevel = 2
+		e.Run(func(x *explore.X, owned bool) uint64 {
+			d := topoDoc(x, tc.menu, tc.sizes)
+			text := d.Render()
+			if !owned {
+				return report.H(text)
+			}
+			return v.account(x, "topologies", text, d, false, map[string]interface{}{"space": "topologies", "choices": x.Trace(), "quick": c.Quick(), "config": ti})
 		})
 		c.Absorb(e)
 	}
@@ -839,11 +845,9 @@ func replay(c *core.Ctx, p map[string]interface{}) (bool, string) {
 	case "topologies":
 		withDo = false
 		explore.Replay(choices, 0, func(x *explore.X, owned bool) uint64 {
-			menu, sizes := len(topoMenu), []int{2, 1, 1}
-			if q, _ := p["quick"].(bool); q {
-				menu, sizes = topoQuickMenu, []int{2, 1}
-			}
-			d = topoDoc(x, menu, sizes)
+			q, _ := p["quick"].(bool)
+			tc := topoConfigs(q)[num("config")]
+			d = topoDoc(x, tc.menu, tc.sizes)
 			return 0
 		})
 	case "exclusivity":
